@@ -741,7 +741,55 @@ def cases_parse_data(rng, n):
     return out
 
 
+def cases_build_events(rng, n):
+    """`build_events_from_data`: the three `issubclass` answers are tabulated for the event class of the call; the nested builder the
+    dispatch must reach is given the function's own result (the function returns that call's result)"""
+    import chartparse.track as ct
+    from chartparse.globalevents import GlobalEventsTrack, LyricEvent, SectionEvent, TextEvent
+    from chartparse.instrument import InstrumentTrack, StarPowerEvent, TrackEvent
+    from chartparse.sync import AnchorEvent, BPMEvent, SyncTrack, TimeSignatureEvent
+
+    from . import gen
+    out = []
+    prof = gen.Profile(max_tracks=1, max_groups=3, max_events=3, max_tempo=3, garbage=0.0, unknown_sections=0.0)
+    needing = "O type:<locals>.BPMNeedingEvent 0"
+    for _ in range(max(6, n // 8)):
+        src = gen.rand_src(rng, prof)
+        R = gen.render(src, rng, prof)
+        secs = dict(R.sections)
+        try:
+            ts_d, bpm_d, an_d = SyncTrack._parse_data_from_chart_lines(list(secs.get("SyncTrack", [])))
+            be = ct.build_events_from_data(BPMEvent, bpm_d, src.res)
+            tx_d, se_d, ly_d = GlobalEventsTrack._parse_data_from_chart_lines(list(secs.get("Events", [])))
+        except Exception:  # noqa: BLE001
+            continue
+        calls = [(AnchorEvent, an_d, None), (BPMEvent, bpm_d, src.res), (BPMEvent, list(reversed(bpm_d)), src.res), (TimeSignatureEvent, ts_d, be),
+                 (TextEvent, tx_d, be), (SectionEvent, se_d, be), (LyricEvent, ly_d, be)]
+        for tag, body in R.sections:
+            if tag not in ("Song", "SyncTrack", "Events"):
+                _, sp_d, te_d = InstrumentTrack._parse_data_from_chart_lines(list(body))
+                calls += [(StarPowerEvent, sp_d, be), (TrackEvent, te_d, be)]
+        for et, datas, third in calls:
+            datas = list(datas)
+            try:
+                real = show_result(ct.build_events_from_data, et, datas, third)
+                a, b = issubclass(et, AnchorEvent), issubclass(et, BPMEvent)
+                table = [f"issubclass 2 {ser(et)} {ser(AnchorEvent)} R {ser(a)}", f"issubclass 2 {ser(et)} {ser(BPMEvent)} R {ser(b)}",
+                         f"issubclass 2 {ser(et)} {needing} R {ser(not a and not b)}"]
+                if a:
+                    table.append(f"data_to_anchor_events 1 {ser(datas)} {real}")
+                elif b:
+                    table.append(f"data_to_bpm_events 2 {ser(datas)} {ser(third)} {real}")
+                else:
+                    table.append(f"data_to_events 3 {ser(et)} {ser(datas)} {ser(third)} {real}")
+                out.append((request("buildEventsFromData", [et, datas, third], table), real, "buildEventsFromData"))
+            except Unserialisable:
+                continue
+    return out
+
+
 GENERATORS = {
+    "buildEventsFromData": cases_build_events,
     "instrumentParseData": cases_parse_data,
     "syncParseData": cases_parse_data,
     "globalEventsParseData": cases_parse_data,
